@@ -66,6 +66,13 @@ def audit(cfg):
             elif len(parts) == 3 and parts[1] not in ("U",):
                 defined.add(parts[2])
     bad = {s: files for s, files in undefined.items() if s not in defined and s not in ALLOWED and not ALLOWED_RE.match(s)}
+    # thread-local storage is mutable state kept between calls as well (per thread): no object may carry a .tdata / .tbss section
+    for o in objs:
+        out = subprocess.run(["size", "-A", o], stdout=subprocess.PIPE, text=True).stdout
+        for line in out.splitlines():
+            parts = line.split()
+            if len(parts) >= 2 and parts[0] in (".tbss", ".tdata") and parts[1].isdigit() and int(parts[1]) > 0:
+                bad.setdefault("<thread-local storage: %s>" % parts[0], []).append(os.path.basename(o))
     return len(objs), len(undefined), bad
 
 
